@@ -1,127 +1,121 @@
 import Fabio.Generated.C14
 import Fabio.Model.C14
 /-!
-C14 — obligations over the facts regenerated from `/repo` on every run: the literals of the option switch and of
-the emitted line that `Model/C14.lean` mirrors, how tags and options are quoted, that every command passes fabio's
-own parser and a routing table before it is emitted (repair of D19), the tag partition, the address fallback, the
-calls of `parseURLPrefixTag`, the join of `makeConfig`, and that monitor and command builder keep no state between
-calls (struct fields, no writes through a receiver, no package variables, what each method reads).
+C14 — obligations over the facts regenerated from `/repo` on every run.
+
+The extractor (`tools/factgen/c14.go`) works on the *normalised* source (package constants inlined, literal
+concatenations folded, `switch` = if-chain) and on the *inlined* walk from `ServiceMonitor.makeConfig` through
+`serviceConfig`, `routecmd.build` and every unexported helper they call; locals, parameters and receivers are
+printed as `_`, unexported field/method names selected from a variable are not printed, conditions are taken
+without polarity. The obligations pin meaning — which library calls are made with which literal arguments, which
+literals make up the line, what each option does, the order "read the weight, parse, compare, table check, then
+emit", what is read of a catalog entry and of the monitor — not the spelling of statements or the names of
+locals and unexported helpers, nor the function or file a statement lives in.
 -/
 namespace Fabio.Props.C14Facts
 open Fabio Fabio.Generated.C14 Fabio.Model.C14
 
-/-- closes conjunctions of closed equalities between literals -/
-syntax "pin" : tactic
-macro_rules | `(tactic| pin) => `(tactic| first | rfl | decide | (apply And.intro <;> pin))
+/-- every element of `req` occurs in `l` -/
+def sub (req l : List String) : Bool := req.all (fun s => l.contains s)
 
-/-! ### the option switch of `build` -/
+/-! ### the option loop of `build` -/
 
-/-- the cases, in order: four protocols, `weight=`, `redirect=`, default — as `Model.C14.optStep` tests them -/
-theorem option_switch_conditions :
-    optSwitchConds = ["o == \"proto=tcp\"", "o == \"proto=https\"", "o == \"proto=grpcs\"", "o == \"proto=grpc\"",
-      "strings.HasPrefix(o, \"weight=\")", "strings.HasPrefix(o, \"redirect=\")", "default"] := by pin
+/-- what each option does first: the destination by protocol (no trailing slash), the weight text after
+`weight=`, the redirect value after `redirect=` split on "," — as `Model.C14.optStep` -/
+theorem option_effects :
+    optionEffects = ["_ == \"proto=grpc\" => _ = \"grpc://\" + _", "_ == \"proto=grpcs\" => _ = \"grpcs://\" + _",
+      "_ == \"proto=https\" => _ = \"https://\" + _", "_ == \"proto=tcp\" => _ = \"tcp://\" + _",
+      "strings.HasPrefix(_, \"redirect=\") => _ := strings.Split(strings.TrimPrefix(_, \"redirect=\"), \",\")",
+      "strings.HasPrefix(_, \"weight=\") => _ = strings.TrimPrefix(_, \"weight=\")"] := by decide
 
-/-- what each case does first: the destination by protocol (no trailing slash), the weight text, the redirect
-split on ",", the option passed on -/
-theorem option_switch_effects :
-    optSwitchFirstStmt = ["dst = \"tcp://\" + addr", "dst = \"https://\" + addr", "dst = \"grpcs://\" + addr",
-      "dst = \"grpc://\" + addr", "weight = o[len(\"weight=\"):]",
-      "redir := strings.Split(o[len(\"redirect=\"):], \",\")", "ropts = append(ropts, o)"] := by pin
-
-/-- the model's keywords are the code's literals -/
+/-- the model's keywords are literals of the code -/
 theorem model_keywords :
-    String.ofList kProtoTcp ∈ buildLiterals ∧ String.ofList kProtoHttps ∈ buildLiterals ∧
-    String.ofList kProtoGrpcs ∈ buildLiterals ∧ String.ofList kProtoGrpc ∈ buildLiterals ∧
-    String.ofList kWeightEq ∈ buildLiterals ∧ String.ofList kRedirectEq ∈ buildLiterals := by decide
+    sub [String.ofList kProtoTcp, String.ofList kProtoHttps, String.ofList kProtoGrpcs, String.ofList kProtoGrpc,
+      String.ofList kWeightEq, String.ofList kRedirectEq] pipelineLiterals = true := by decide
 
-/-- every string literal of `build`: the line is `route add <name> <route> <dst>[ weight <w>][ tags "<t>"][ opts "<o>"]`
-with the tags and options **raw** between double quotes, the five destination schemes, the `redirect=%s` option -/
-theorem build_literals :
-    buildLiterals = ["", " ", " opts \"", " tags \"", " weight ", "\"", ",", ".", ".local", "/",
-      "[ERROR] Invalid syntax for redirect: %s. should be redirect=<code>,<url>",
-      "[WARN] consul: Ignoring tag %q of service %q. %s", "darwin", "grpc://", "grpcs://", "http://", "https://",
-      "proto=grpc", "proto=grpcs", "proto=https", "proto=tcp", "redirect=", "redirect=%s", "route add ", "tcp://",
-      "weight="] := by pin
+/-- the literals of the emitted line (tags and options **raw** between double quotes), the five destination
+schemes, the separators, the `redirect=%s` option, the variable `DC`, the join with "\n" -/
+theorem line_literals :
+    sub ["route add ", " ", " weight ", " tags \"", " opts \"", "\"", ",", "http://", "/", "tcp://", "https://",
+      "grpcs://", "grpc://", "redirect=%s", ":", "=", "DC", "\n", ".local", "darwin"] pipelineLiterals = true := by decide
 
-/-- tags and options are no longer written with `strconv.Quote` / `%q` (the grammar `"[^"]*"` knows no escapes) -/
-theorem no_go_quoting : buildStrconvQuoteCalls = 0 ∧ buildSprintfQ = 0 := by pin
+/-! ### the library calls of the pipeline `makeConfig → serviceConfig → build → parseURLPrefixTag / validation` -/
 
-/-- options are split with `strings.Fields`; tags are trimmed once, in the partition loop; the tags are joined
-with ",", the options with " ", host and port with `net.JoinHostPort(addr, strconv.Itoa(port))`; the redirect
-value is split on "," -/
-theorem build_calls :
-    buildFieldsCalls = ["strings.Fields(opts)"] ∧ buildTrimCalls = ["strings.TrimSpace(t)"] ∧
-    buildJoinCalls = ["strings.Join(svctags, \",\")", "strings.Join(ropts, \" \")",
-      "net.JoinHostPort(addr, strconv.Itoa(port))"] ∧
-    buildSplitCalls = ["strings.Split(o[len(\"redirect=\"):], \",\")"] := by pin
+/-- options are split with `strings.Fields`, tags trimmed with `strings.TrimSpace`, tags joined with ",", options
+with " ", commands with "\n" after a reverse sort; host and port joined by `net.JoinHostPort(_, strconv.Itoa(_))`;
+the redirect value split on ","; `parseURLPrefixTag` trims, splits once at " " and once at "/", tests ":" and "/",
+lower-cases the expanded host and expands with `os.Expand` -/
+theorem pipeline_calls :
+    sub ["strings.Fields(_)", "strings.TrimSpace(_)", "strings.TrimSpace(_[len(_):])", "strings.Join(_, \",\")",
+      "strings.Join(_, \" \")", "strings.Join(_, \"\\n\")", "sort.Sort(sort.Reverse(sort.StringSlice(_)))",
+      "net.JoinHostPort(_, strconv.Itoa(_))", "strings.Split(strings.TrimPrefix(_, \"redirect=\"), \",\")",
+      "fmt.Sprintf(\"redirect=%s\", _[0])", "strings.SplitN(_, \" \", 2)", "strings.SplitN(_, \"/\", 2)",
+      "strings.HasPrefix(_, \":\")", "strings.Contains(_, \"/\")", "strings.HasPrefix(_, _)",
+      "strings.ToLower(_(_))", "os.Expand(_, func)"] pipelineCalls = true := by decide
 
-/-- the conditions of `build`, in order: tag partition by prefix, `parseURLPrefixTag` ok, the node-address
-fallback, the darwin-only `.local` suffix (outside the model: the harness runs on linux), the redirect arity,
-the three optional clauses, the validation -/
-theorem build_conditions :
-    buildIfConds = ["strings.HasPrefix(t, r.prefix)", "ok", "addr == \"\"",
-      "runtime.GOOS == \"darwin\" && !strings.Contains(addr, \".\") && !strings.HasSuffix(addr, \".local\")",
-      "len(redir) == 2", "weight != \"\"", "len(svctags) > 0", "len(ropts) > 0", "err != nil"] := by pin
+/-- tags and options are not written with `strconv.Quote` / `%q` (the grammar `"[^"]*"` knows no escapes) -/
+theorem no_go_quoting : goQuotingCalls = [] := by decide
+
+/-- the guards the model mirrors (without polarity): the tag partition and `parseURLPrefixTag`'s prefix test, the
+address fallback / weight clause (`_ == ""`), the redirect arity and the two-way splits (`len(_) == 2`), the
+optional clauses (`len(_) == 0`), `serviceConfig`'s empty-name guard, the darwin-only `.local` suffix (outside the
+model: the harness runs on linux) -/
+theorem pipeline_guards :
+    sub ["strings.HasPrefix(_, _)", "_ == \"\"", "len(_) == 2", "len(_) == 0", "_ == \"\" || len(_) == 0",
+      "strings.HasPrefix(_, \":\")", "strings.Contains(_, \"/\")",
+      "runtime.GOOS == \"darwin\" && !strings.Contains(_, \".\") && !strings.HasSuffix(_, \".local\")",
+      "_ == \"proto=tcp\"", "_ == \"proto=https\"", "_ == \"proto=grpcs\"", "_ == \"proto=grpc\"",
+      "strings.HasPrefix(_, \"weight=\")", "strings.HasPrefix(_, \"redirect=\")"] pipelineConds = true := by decide
 
 /-! ### repair of D19: a command is emitted only if it denotes the route that is meant -/
 
-/-- `config = append(config, cfg)` is preceded by `if err := denotes(cfg, …); err != nil { …; continue }` -/
-theorem emit_is_validated : emitGuardedByValidator = true ∧ validatorName = "denotes" := by pin
+/-- in `build` (helpers inlined), between the assembly of a command and the append to the result: the weight is
+read with `strconv.ParseFloat`, the command goes through `route.Parse`, the one definition is compared with
+`reflect.DeepEqual`, a table is built with `route.NewTable` — each followed by a conditional exit — and only then
+the command is emitted (`Model.C14.denotes`, `Model.C14.build`) -/
+theorem validation_before_emit :
+    validationOrder = ["call strconv.ParseFloat", "exit", "call route.Parse", "exit", "call reflect.DeepEqual", "exit",
+      "call route.NewTable", "exit", "emit"] := by decide
 
-/-- the validator feeds the command to fabio's own parser (`route.Parse`) and to a routing table
-(`route.NewTable`), compares the one definition with the intended one (`reflect.DeepEqual`) and reads the weight
-with `strconv.ParseFloat` — `Model.C14.denotes` -/
-theorem validator_uses_fabios_parser :
-    validatorCalls = ["route.Parse(bytes.NewBufferString(cmd))", "route.NewTable(bytes.NewBufferString(cmd))",
-      "reflect.DeepEqual(defs[0], want)", "strconv.ParseFloat(weight, 64)"] := by pin
-
-/-- the intended options are split at the first "=" (`Model.Parse.splitKV`) -/
-theorem validator_literals :
-    validatorLiterals = ["", "=", "invalid weight %q", "tag cannot be expressed as a route command"] := by pin
+/-- parser and table each get the command text in a buffer of their own (`route.Parse` drains its buffer), the
+comparison is between the parsed definition and the intended one, the weight is a 64-bit float, the intended
+options are split at the first "=" -/
+theorem validator_calls :
+    sub ["route.Parse(bytes.NewBufferString(_))", "route.NewTable(bytes.NewBufferString(_))",
+      "reflect.DeepEqual(_[0], _)", "strconv.ParseFloat(_, 64)", "strings.SplitN(_, \"=\", 2)"] pipelineCalls = true ∧
+    sub ["len(_) != 1 || !reflect.DeepEqual(_[0], _)", "_ == nil"] pipelineConds = true := by decide
 
 /-! ### `parseURLPrefixTag` -/
 
-theorem parse_tag_calls :
-    parseTagCalls = ["strings.TrimSpace(s)", "strings.TrimSpace(s[len(prefix):])", "strings.HasPrefix(s, prefix)",
-      "strings.HasPrefix(s, \":\")", "strings.SplitN(s, \" \", 2)", "strings.SplitN(s, \"/\", 2)",
-      "strings.Contains(s, \"/\")", "strings.ToLower(expand(host))",
-      "os.Expand(s, func(x string) string { if env == nil { return \"\" } return env[x] })"] := by pin
-
+/-- its results: not a routing tag / bad syntax; the `:port` and no-slash forms verbatim; host lower-cased and
+expanded, path expanded -/
 theorem parse_tag_returns :
-    parseTagReturns = ["return \"\", \"\", false", "return s, opts, true", "return s, opts, true",
-      "return \"\", \"\", false", "return strings.ToLower(expand(host)) + \"/\" + expand(path), opts, true"] := by pin
+    parseTagReturns = ["return \"\", \"\", false", "return \"\", \"\", false", "return _, _, true", "return _, _, true",
+      "return strings.ToLower(_(_)) + \"/\" + _(_), _, true"] := by decide
 
-/-! ### `makeConfig` / `serviceConfig` -/
-
-/-- all commands of all services are sorted in reverse and joined with "\n" (`Model.C14.configText`); a service
-without a name contributes nothing (`Model.C14.named`); the only variable is `DC` -/
-theorem make_config_join :
-    makeConfigJoin = ["sort.Sort(sort.Reverse(sort.StringSlice(config)))", "strings.Join(config, \"\\n\")"] ∧
-    serviceConfigGuard = "name == \"\" || len(passing) == 0" ∧ envKeys = ["DC"] ∧
-    serviceConfigBuildCalls = ["r.build()"] := by pin
+/-- the only variable is `DC` -/
+theorem env_keys : envKeys = ["DC"] := by decide
 
 /-! ### no state between calls (the property quantifies over histories) -/
 
-/-- `ServiceMonitor` holds the client, the configuration, the datacenter and the strict flag — nothing that could
-remember an earlier catalog state; `routecmd` holds the catalog entry, the prefix and the environment -/
+/-- `ServiceMonitor` holds an API client, the configuration, a string and a bool — nothing that could remember an
+earlier catalog state; `routecmd` holds the catalog entry, a string and a string map -/
 theorem monitor_fields :
-    monitorFields = ["client *api.Client", "config *config.Consul", "dc string", "strict bool"] ∧
-    routecmdFields = ["svc *api.CatalogService", "prefix string", "env map[string]string"] := by pin
+    monitorFieldTypes = ["*api.Client", "*config.Consul", "bool", "string"] ∧
+    routecmdFieldTypes = ["*api.CatalogService", "map[string]string", "string"] := by decide
 
-/-- the monitor's methods are `Watch`, `makeConfig`, `serviceConfig`; no method of `ServiceMonitor` or `routecmd`
-assigns through its receiver; the package has no package-level variable -/
-theorem monitor_is_stateless :
-    monitorMethods = ["Watch", "makeConfig", "serviceConfig"] ∧ receiverWrites = [] ∧ packageVars = [] := by pin
+/-- no method of `ServiceMonitor` or `routecmd` assigns through its receiver; the package has no package-level
+variable -/
+theorem monitor_is_stateless : receiverWrites = [] ∧ packageVars = [] := by decide
 
-/-- what the methods read through their receiver: `makeConfig` the number of parallel lookups, `serviceConfig` the
-client (the catalog answer), the query options, the tag prefix and the datacenter — and `build` exactly the
-fields of the catalog entry that `Model.C14.Reg` carries (name, service address, node address, port, tags), the
-prefix and the environment: `CreateIndex`/`ModifyIndex` and the like are not consulted -/
+/-- what the pipeline reads: of the monitor the client's catalog, the query options, the number of parallel
+lookups, the tag prefix and the datacenter string; of a catalog entry / health check exactly the fields
+`Model.C14.Reg` carries (name, service address, node address, port, tags) plus node and service id (the join of
+C01) — `CreateIndex`/`ModifyIndex` and the like are not consulted -/
 theorem reads_only_current_state :
-    makeConfigReads = ["w.config.ServiceMonitors", "w.serviceConfig"] ∧
-    serviceConfigReads = ["w.client.Catalog", "w.config.AllowStale", "w.config.RequireConsistent",
-      "w.config.TagPrefix", "w.dc"] ∧
-    buildReads = ["r.env", "r.prefix", "r.svc.Address", "r.svc.ServiceAddress", "r.svc.ServiceName",
-      "r.svc.ServicePort", "r.svc.ServiceTags"] := by pin
+    monitorReads = ["(*api.Client).Catalog", "(*config.Consul).AllowStale", "(*config.Consul).RequireConsistent",
+      "(*config.Consul).ServiceMonitors", "(*config.Consul).TagPrefix", "(string)"] ∧
+    entryFieldsRead = ["Address", "Node", "ServiceAddress", "ServiceID", "ServiceName", "ServicePort",
+      "ServiceTags"] := by decide
 
 end Fabio.Props.C14Facts
